@@ -38,7 +38,6 @@
 package context
 
 import (
-	"errors"
 	"math/big"
 
 	"github.com/db47h/decimal"
@@ -177,6 +176,17 @@ func (c *Context) Set(z, x *decimal.Decimal) *decimal.Decimal {
 	return c.apply(z.Copy(x))
 }
 
+// latch records a recovered ErrNaN panic value as the context's error and
+// reports whether it did; any other panic value is not an arithmetic error and
+// must be re-raised by the caller.
+func (c *Context) latch(v interface{}) bool {
+	if err, ok := v.(decimal.ErrNaN); ok {
+		c.err = err
+		return true
+	}
+	return false
+}
+
 // apply applies c's precision and rounding mode to z.
 func (c *Context) apply(z *decimal.Decimal) *decimal.Decimal {
 	z.SetMode(c.mode)
@@ -194,7 +204,7 @@ func (c *Context) Add(z, x, y *decimal.Decimal) (r *decimal.Decimal) {
 		}
 		defer func() {
 			if err := recover(); err != nil {
-				if !errors.As(err.(error), &c.err) {
+				if !c.latch(err) {
 					panic(err)
 				}
 				r = z
@@ -212,7 +222,7 @@ func (c *Context) Sub(z, x, y *decimal.Decimal) (r *decimal.Decimal) {
 		}
 		defer func() {
 			if err := recover(); err != nil {
-				if !errors.As(err.(error), &c.err) {
+				if !c.latch(err) {
 					panic(err)
 				}
 				r = z
@@ -231,7 +241,7 @@ func (c *Context) FMA(z, x, y, u *decimal.Decimal) (r *decimal.Decimal) {
 		}
 		defer func() {
 			if err := recover(); err != nil {
-				if !errors.As(err.(error), &c.err) {
+				if !c.latch(err) {
 					panic(err)
 				}
 				r = z
@@ -249,7 +259,7 @@ func (c *Context) Mul(z, x, y *decimal.Decimal) (r *decimal.Decimal) {
 		}
 		defer func() {
 			if err := recover(); err != nil {
-				if !errors.As(err.(error), &c.err) {
+				if !c.latch(err) {
 					panic(err)
 				}
 				r = z
@@ -267,7 +277,7 @@ func (c *Context) Quo(z, x, y *decimal.Decimal) (r *decimal.Decimal) {
 		}
 		defer func() {
 			if err := recover(); err != nil {
-				if !errors.As(err.(error), &c.err) {
+				if !c.latch(err) {
 					panic(err)
 				}
 				r = z
@@ -308,7 +318,7 @@ func (c *Context) Sqrt(z, x *decimal.Decimal) (r *decimal.Decimal) {
 		}
 		defer func() {
 			if err := recover(); err != nil {
-				if !errors.As(err.(error), &c.err) {
+				if !c.latch(err) {
 					panic(err)
 				}
 				r = z
